@@ -376,6 +376,22 @@ SILENT = [
     def append(self, item):  # noqa: D102
         self._validate(item)
         self._locked_append(self._from_base(data=item, parent=self))""")]),
+    dict(id="s-with-moved-into-decorator", props=["C01", "C04", "C09", "C10", "C17", "C11"],
+         edits=[(DT + "synced_dict.py", """class SyncedDict(SyncedCollection, MutableMapping):""", """def _synchronized(method):
+    def wrapper(self, *args, **kwargs):
+        with self._load_and_save:
+            return method(self, *args, **kwargs)
+
+    return wrapper
+
+
+class SyncedDict(SyncedCollection, MutableMapping):"""),
+                (DT + "synced_dict.py", """    def popitem(self):  # noqa: D102
+        with self._load_and_save:
+            ret = self._data.popitem()
+        return ret""", """    @_synchronized
+    def popitem(self):  # noqa: D102
+        return self._data.popitem()""")]),
     dict(id="s-early-return-instead-of-else", props=["C01", "C02", "C04", "C17", "C09", "C10"],
          edits=[(DT + "synced_collection.py", """        if not self._suspend_sync:
             if self._root is None:
